@@ -151,6 +151,56 @@ func (e *Exec) scenarioShape(path string, t types.Type, a string) ([]altFn, bool
 			s.CellTypes[r.Cell] = p.Elem()
 			return r
 		}, a)
+	case "symmap": // an unknown map: lookups yield fresh symbols
+		return one(func(s *State) Val {
+			r := s.alloc(&MapAgg{Unknown: true, Tag: path})
+			delete(s.Fresh, r.Cell)
+			return MapV{Cell: r.Cell}
+		}, a)
+	case "strmap": // strmap(k:true, ...) a concrete map keyed by parameter atoms / literals
+		mt := t.Underlying().(*types.Map)
+		return one(func(s *State) Val {
+			m := &MapAgg{Tag: path}
+			for _, kv := range args {
+				p := strings.SplitN(kv, ":", 2)
+				var v Val
+				switch {
+				case p[1] == "true" || p[1] == "false":
+					v = mkBool(p[1] == "true")
+				default:
+					var n int64
+					fmt.Sscan(p[1], &n)
+					v = mkInt(n)
+				}
+				_ = mt
+				m.Keys = append(m.Keys, atom(p[0]))
+				m.Vals = append(m.Vals, v)
+			}
+			r := s.alloc(m)
+			delete(s.Fresh, r.Cell)
+			return MapV{Cell: r.Cell}
+		}, a)
+	case "propmap": // propmap(key): map {atom(key): &<value shaped under path "prop">}
+		mt, ok := t.Underlying().(*types.Map)
+		if !ok || e.curGen == nil {
+			unsupported("propmap on %s", t)
+		}
+		pt := mt.Elem().Underlying().(*types.Pointer)
+		var out []altFn
+		for _, in := range e.curGen.alts("*prop", pt.Elem(), 1) {
+			in := in
+			out = append(out, func(s *State) (Val, string) {
+				v, d := in(s)
+				pr := s.alloc(v)
+				delete(s.Fresh, pr.Cell)
+				s.CellTypes[pr.Cell] = pt.Elem()
+				m := &MapAgg{Tag: path, Keys: []Val{atom(args[0])}, Vals: []Val{pr}}
+				r := s.alloc(m)
+				delete(s.Fresh, r.Cell)
+				return MapV{Cell: r.Cell}, d
+			})
+		}
+		return out, true
 	case "decls": // decls(a, b, ...): *output whose declsByName holds finished declarations of these names
 		p, ok := t.Underlying().(*types.Pointer)
 		if !ok {
